@@ -69,10 +69,20 @@ fn count_value_nodes(cfg: &Cfg) -> usize {
     n
 }
 
-fn evaluate(src: &str, curve_idx: usize, oracle_seed: u64, valuations: usize, lines: usize) -> Eval {
+fn evaluate(prelude: &str, src: &str, curve_idx: usize, oracle_seed: u64, valuations: usize, lines: usize) -> Eval {
     let mut e = Eval::default();
-    let Some(def) = parser::parse_definition(src) else { return e };
     let curve = Curve::from_str(CURVES[curve_idx]).unwrap_or_default();
+    // another definition lifted first on the same thread (its propagation may be the one
+    // that is cut): whatever it leaves behind must not leak into the judged definition
+    if !prelude.is_empty() {
+        if let Some(pd) = parser::parse_definition(prelude) {
+            let mut scratch = ReportCollection::new();
+            if let Ok(c) = pd.into_cfg(&curve, &mut scratch) {
+                let _ = c.into_ssa();
+            }
+        }
+    }
+    let Some(def) = parser::parse_definition(src) else { return e };
     let mut reports = ReportCollection::new();
     let Ok(cfg) = def.into_cfg(&curve, &mut reports) else { return e };
     let Ok(cfg) = cfg.into_ssa() else { return e };
@@ -88,7 +98,27 @@ fn evaluate(src: &str, curve_idx: usize, oracle_seed: u64, valuations: usize, li
     let field = Field::new(&p);
     let mut r = Rng::new(oracle_seed);
     for _ in 0..valuations {
-        let mut it = Interp::new(&cfg, &field, Mode::Values, r.next_u64(), r.next_u64(), 0);
+        let (cs, ls) = (r.next_u64(), r.next_u64());
+        // a signal has a single value: first find the values the signals end up with
+        // under these choices, then execute again with them visible from the start
+        let mut pre = std::collections::BTreeMap::new();
+        let mut stable = false;
+        for _ in 0..3 {
+            let mut probe = Interp::new(&cfg, &field, Mode::Values, cs, ls, 0);
+            probe.judge = false;
+            probe.pre_signals = pre.clone();
+            probe.run();
+            if probe.signals == pre {
+                stable = true;
+                break;
+            }
+            pre = probe.signals;
+        }
+        if !stable {
+            continue;
+        }
+        let mut it = Interp::new(&cfg, &field, Mode::Values, cs, ls, 0);
+        it.pre_signals = pre;
         it.run();
         e.value_claims_checked += it.trace.claims_checked;
         if let Some(v) = it.trace.violation {
@@ -108,6 +138,25 @@ fn evaluate(src: &str, curve_idx: usize, oracle_seed: u64, valuations: usize, li
     e
 }
 
+/// A small definition lifted before the judged one in half of the cases.
+pub fn gen_prelude(seed: u64, i: usize) -> String {
+    let mut r = Rng::new(seed).sub_n("C20-prelude", i as u64);
+    if r.chance(1, 2) {
+        return String::new();
+    }
+    let mut k = Knobs::all_on(&mut r);
+    k.max_stmts = 3 + r.usize(6);
+    k.max_depth = 1 + r.usize(2);
+    k.anon = false;
+    k.tuples = false;
+    k.dup_params = false;
+    k.custom_templates = false;
+    k.big_literals = false;
+    k.logs = false;
+    let d = gen::gen_single_def(&mut r, &k);
+    gen::render_def(&d)
+}
+
 pub fn gen_source(seed: u64, i: usize) -> (String, usize) {
     let base = Rng::new(seed).sub_n("C20", i as u64);
     let mut r = base.sub("def");
@@ -124,6 +173,7 @@ pub fn gen_source(seed: u64, i: usize) -> (String, usize) {
     k.big_literals = r.chance(1, 2);
     k.hex = r.chance(1, 3);
     k.logs = false;
+    k.array_init_permille = 300;
     let d = gen::gen_single_def(&mut r, &k);
     (gen::render_def(&d), curve_idx)
 }
@@ -151,6 +201,7 @@ struct Sched {
 
 fn one(seed: u64, i: usize, keys: usize, pairs: usize, valuations: usize, lines: usize) -> DefRes {
     let (src, curve_idx) = gen_source(seed, i);
+    let prelude = gen_prelude(seed, i);
     let mut res = DefRes { evals: 0, usable: false, reads: 0, cut_points: 0, pair_cuts: 0, stalls_fired: 0, value_claims: 0, degree_claims: 0, violation: None, sim_ns: 0, facts_lost_by_cut: 0 };
     let mut rk = Rng::new(seed).sub_n("C20-sched", i as u64);
     for _ki in 0..keys {
@@ -160,12 +211,13 @@ fn one(seed: u64, i: usize, keys: usize, pairs: usize, valuations: usize, lines:
         let mut run = |sched: &Sched, res: &mut DefRes| -> Option<(Eval, usize)> {
             let plan = SimPlan { key, clock_seed, max_step_ns: 50_000, stalls: sched.stalls.clone(), stall_permille: sched.permille };
             let s = src.clone();
-            let (out, stats) = run_in_sim(&plan, move || evaluate(&s, curve_idx, oracle_seed, valuations, lines));
+            let pre = prelude.clone();
+            let (out, stats) = run_in_sim(&plan, move || evaluate(&pre, &s, curve_idx, oracle_seed, valuations, lines));
             res.evals += 1;
             res.sim_ns += stats.sim_ns;
             res.stalls_fired += stats.stalls_fired;
             let replay = |sig: &str| {
-                json!({"kind": "C20", "seed": seed, "index": i, "source": src, "curve": CURVES[curve_idx],
+                json!({"kind": "C20", "seed": seed, "index": i, "source": src, "prelude": prelude, "curve": CURVES[curve_idx],
                        "hashkey": key.iter().map(|b| format!("{b:02x}")).collect::<String>(), "clock_seed": clock_seed, "oracle_seed": oracle_seed,
                        "stalls": sched.stalls, "stall_permille": sched.permille, "schedule": sched.label, "signature": sig,
                        "valuations": valuations, "lines": lines})
@@ -251,7 +303,7 @@ fn one(seed: u64, i: usize, keys: usize, pairs: usize, valuations: usize, lines:
 
 pub fn run(env: &Env) -> i32 {
     let t0 = Instant::now();
-    let (n, keys, pairs, valuations, lines) = if env.quick() { (700, 1, 4, 6, 3) } else { (12_000, 4, 16, 32, 8) };
+    let (n, keys, pairs, valuations, lines) = if env.quick() { (500, 1, 4, 6, 3) } else { (12_000, 4, 16, 32, 8) };
     let n = std::env::var("VERIF_RUNS").ok().and_then(|s| s.parse().ok()).unwrap_or(n);
     let seed = env.seed;
     let next = AtomicUsize::new(0);
@@ -351,7 +403,8 @@ fn replay_signature(v: &Value, src: &str) -> Option<String> {
     let valuations = v["valuations"].as_u64().unwrap_or(6) as usize;
     let lines = v["lines"].as_u64().unwrap_or(3) as usize;
     let s = src.to_string();
-    let (out, stats) = run_in_sim(&plan, move || evaluate(&s, curve_idx, oracle_seed, valuations, lines));
+    let pre = v["prelude"].as_str().unwrap_or("").to_string();
+    let (out, stats) = run_in_sim(&plan, move || evaluate(&pre, &s, curve_idx, oracle_seed, valuations, lines));
     match out {
         SimResult::Ok(e) => e.verdict.map(|(k, _)| format!("{}:{k}", if stats.stalls_fired > 0 { "cut" } else { "fixpoint" })),
         SimResult::Panic(p) => {
@@ -368,7 +421,7 @@ fn replay_signature(v: &Value, src: &str) -> Option<String> {
 
 pub fn replay(_env: &Env, v: &Value) -> i32 {
     let src = v["source"].as_str().unwrap_or("").to_string();
-    println!("curve {} schedule: {}\n{src}", v["curve"], v["schedule"]);
+    println!("curve {} schedule: {}\nprelude:\n{}\njudged definition:\n{src}", v["curve"], v["schedule"], v["prelude"].as_str().unwrap_or(""));
     match replay_signature(v, &src) {
         Some(sig) => {
             println!("{sig}");
